@@ -51,6 +51,10 @@ type GN struct {
 	// exported but invisible to sources: still part of the config, so copied like any other reference
 	Aside    *GN            `dials:"-"`
 	AsideMap map[string]int `dials:"-"`
+	// exported names whose first letter is not ASCII (two and three bytes of UTF-8): exported all the same
+	Élan *GN
+	Ṫail []*GN
+	Ấux  map[string]int
 }
 
 type GCfg struct {
@@ -81,6 +85,8 @@ type PN struct {
 	MM     map[string]map[string]int
 	Back   []*PN          `dials:"-"` // default-only references: no source can set them, the config still owns a copy
 	Local  map[string]int `dials:"-"`
+	Ṫail   []*PN
+	Ấux    map[string]int
 }
 
 type PCfg struct {
@@ -476,6 +482,15 @@ func genGraph(r *RNG) *GCfg {
 			nd.AsideMap = shared[r.Intn(len(shared))]
 		}
 		if r.Chance(25) {
+			nd.Élan = pick()
+		}
+		if r.Chance(25) {
+			nd.Ṫail = []*GN{pick(), nd}[:1+r.Intn(2)]
+		}
+		if r.Chance(20) {
+			nd.Ấux = shared[r.Intn(len(shared))]
+		}
+		if r.Chance(25) {
 			nd.Tags = []string{"t", fmt.Sprint(i)}[:1+r.Intn(2)]
 		}
 	}
@@ -569,6 +584,12 @@ func genPGraph(r *RNG) *PCfg {
 		}
 		if r.Chance(20) {
 			nd.Local = sh
+		}
+		if r.Chance(25) {
+			nd.Ṫail = []*PN{pick(), nd}[:1+r.Intn(2)]
+		}
+		if r.Chance(20) {
+			nd.Ấux = sh
 		}
 	}
 	shM["s"] = pick()
